@@ -624,8 +624,16 @@ func (x *Explorer) unwind(why string) {
 var CallStack []string
 var lastPanicWhere string
 
+func curStack() *[]string {
+	if S != nil && S.cur != nil {
+		return &S.cur.stack
+	}
+	return &CallStack
+}
+
 func whereAmI() string {
-	n := len(CallStack)
+	st := *curStack()
+	n := len(st)
 	if n == 0 {
 		return "?"
 	}
@@ -633,7 +641,7 @@ func whereAmI() string {
 	if lo < 0 {
 		lo = 0
 	}
-	return strings.Join(CallStack[lo:], " > ")
+	return strings.Join(st[lo:], " > ")
 }
 
 // ---------- assertions ----------
@@ -1060,7 +1068,7 @@ func (m *Machine) RunJob(job Job) (res JobResult) {
 				return
 			}
 			x.Stats.Steps += x.pathSteps
-			if completed && modelSamples < 1 && len(x.pc) > 0 {
+			if completed && modelSamples < 1 && (len(x.pc) > 0 || len(x.chooses) > 0) {
 				// translator validation: a model of a complete path, replayed natively by the master
 				modelSamples++
 				ins := inputsOf(x.pcRoots(nil))
